@@ -907,7 +907,9 @@ pub fn gen(rng: &mut Rng, tier: &str) -> Vec<Line> {
         reqs.push(Req { op, a: 0, has_page: true, page: p });
       }
     }
-    let mut sats: Vec<u64> = t.sats.iter().map(|x| x.0).collect();
+    let mut by_count: Vec<(usize, u64)> = t.sats.iter().map(|x| (x.1.len(), x.0)).collect();
+    by_count.sort_by(|a, b| b.cmp(a));
+    let mut sats: Vec<u64> = by_count.iter().map(|x| x.1).take(if tier == "thorough" { usize::MAX } else { 7 }).collect();
     sats.push(1);
     sats.push(2_099_999_997_689_999);
     for sat in &sats {
